@@ -379,6 +379,9 @@ var FinitePatterns = []float64{
 	math.Copysign(0, -1), 5e-324, 2.2250738585072014e-308, 0.1, 1.0 / 3.0, 1e21, 1e20,
 	1e-7, 123456789.12345678, math.MaxFloat64, -math.MaxFloat64, 9007199254740994, 1e-6, -1.5,
 	0.30000000000000004, 1e19, 9.223372036854775807e18, 100, 0,
+	// one ulp from a short decimal at the magnitude of projected coordinates
+	// (what arithmetic on short decimals produces), and 2^63
+	123456.70000000001, 457200.30480000004, 98765432.099999994,
 }
 
 // FirstMemberNonEmpty reports whether the first member (recursively) of s has
